@@ -162,10 +162,15 @@ Definition ext03_sm (f : string) (args : list val) (kw : list (string * val)) (s
 
 Definition ext03 := ext03_sm.
 
-(* ---- the arguments ----------------------------------------------------------------------------------- *)
-(* _string_matching(ref, hyp, eos, include_eos, batch_first, ins_cost, del_cost, sub_cost, warn, return_mask=True,
-   exclude_last=excl): the call made by optimal_completion; norm / return_prf_dsts / return_mistakes have their default
-   False, padding its default config.INDEX_PAD_VALUE = -100 (not read on this path) *)
+(* ---- optimal_completion: its environment ------------------------------------------------------------------------ *)
+(* a call of a translated function of this unit: its body on fresh variables; the caller's state is unchanged *)
+Definition call_body3 (body : stmt) (vars0 : list (string * val)) (st : state) : outcome val :=
+  match Interp.run ext03_sm body vars0 with
+  | Ok v _ => Ok v st
+  | Exc n _ => Exc n st
+  | Stuck w => Stuck w
+  end.
+
 Definition sm3_vars (ref hyp : val) (eos : val) (incl bf : val) (qi qd qs : val) (warn : val) (excl : val)
   : list (string * val) :=
   [("ref", ref); ("hyp", hyp); ("eos", eos); ("include_eos", incl);
@@ -173,6 +178,194 @@ Definition sm3_vars (ref hyp : val) (eos : val) (incl bf : val) (qi qd qs : val)
    ("warn", warn); ("norm", VBool false); ("return_mask", VBool true); ("return_prf_dsts", VBool false);
    ("exclude_last", excl); ("padding", VInt (-100)); ("return_mistakes", VBool false)] ++ globals01.
 
+Definition is_ellipsis (k : val) : bool :=
+  match k with VTuple [VStr s] => String.eqb s "$ellipsis" | _ => false end.
+
+Definition is_full_slice (k : val) : bool :=
+  match dec_slice k with Some (None, None) => true | _ => false end.
+
+Definition rt_error : string := "RuntimeError".
+
+(* the calls of optimal_completion's body that are not in the vocabulary of the mask path (None: ext03_sm is asked):
+     _string_matching(ref, hyp, eos, include_eos, batch_first, ins, del, sub, warn, return_mask=True, exclude_last=e)
+     x.transpose(a, b) [3-D]   x.any(d)   x.sort(1) [2-D long]   x.expand_as(y) / x.expand(h, a, b) [2-D -> 3-D]
+     x.gather(2, i) [3-D bool]   x[..., a:b] / x[:, a:b]   torch.cat([x, y], 2) [bool, last dimension]
+     x.masked_select(m)   x.sum(2) [bool]   x.max() / .item() / int(..)   torch.full((h, n, c), v, dtype=torch.long, device=)
+     long == long, long > long (broadcasting)   x.masked_scatter_(m, src) as a statement ("$method!.": the updated x) *)
+Definition ext03_oc_new (f : string) (args : list val) (kw : list (string * val)) (st : state) : option (outcome val) :=
+  if is f "_string_matching" then
+    Some match args, kw with
+         | [ref; hyp; eos; incl; bf; qi; qd; qs; warn], [(k1, VBool true); (k2, excl)] =>
+             if (is k1 "return_mask" && is k2 "exclude_last")%bool
+             then call_body3 sm3_body (sm3_vars ref hyp eos incl bf qi qd qs warn excl) st
+             else Stuck "_string_matching: keywords"
+         | _, _ => Stuck "_string_matching: arguments"
+         end
+  else if negb (no_kw kw) then
+    (if is f "torch.full" then
+       match args with
+       | [VTuple [VInt a; VInt b; VInt c]; VInt v] =>
+           Some (if kw2_is "dtype" long_token "device" device_token kw
+                 then (if (Z.ltb a 0 || Z.ltb b 0 || Z.ltb c 0)%bool then oob "full"
+                       else Ok (enc_i (full [Z.to_nat a; Z.to_nat b; Z.to_nat c] v)) st)
+                 else Stuck "full: keyword")
+       | _ => None
+       end
+     else None)
+  else if is f "int" then
+    match args with [VInt z] => Some (Ok (VInt z) st) | _ => Some (Stuck "int") end
+  else if is f "$method.transpose" then
+    Some match args with
+         | [t; VInt a; VInt b] =>
+             match dec01 t with
+             | Some x => ret01 "transpose" (map01 (fun X d y => transpose3 d y a b) x) st
+             | None => Stuck "transpose"
+             end
+         | _ => Stuck "transpose"
+         end
+  else if is f "$method.any" then
+    match args with
+    | [t; VInt d] => Some match dec01 t with
+                          | Some (AB x) => ret01 "any(dim)" (option_map AB (any_dim x d)) st
+                          | _ => Stuck "any(dim)"
+                          end
+    | _ => None
+    end
+  else if is f "$method.sum" then
+    Some match args with
+         | [t; VInt d] => match dec01 t with
+                          | Some (AB x) => ret01 "sum" (option_map AI (sum_dim_b x d)) st
+                          | _ => Stuck "sum"
+                          end
+         | _ => Stuck "sum"
+         end
+  else if is f "$method.sort" then
+    Some match args with
+         | [t; VInt d] => match dec01 t with
+                          | Some (AI x) => match sort_last2 x d with
+                                           | Some (v, i) => Ok (VTuple [enc_i v; enc_i i]) st
+                                           | None => oob "sort"
+                                           end
+                          | _ => Stuck "sort"
+                          end
+         | _ => Stuck "sort"
+         end
+  else if is f "$method.expand_as" then
+    Some match args with
+         | [t; o] => match dec01 t, option_map shape01 (dec01 o) with
+                     | Some x, Some [h; a; b] =>
+                         ret01 "expand_as" (map01 (fun X d y => expand_lead2 d y (Z.of_nat h) (Z.of_nat a) (Z.of_nat b)) x) st
+                     | _, _ => Stuck "expand_as"
+                     end
+         | _ => Stuck "expand_as"
+         end
+  else if is f "$method.expand" then
+    match args with
+    | [t; VInt h; VInt a; VInt b] =>
+        Some match dec01 t with
+             | Some x => ret01 "expand" (map01 (fun X d y => expand_lead2 d y h a b) x) st
+             | None => Stuck "expand"
+             end
+    | _ => None
+    end
+  else if is f "$method.gather" then
+    match args with
+    | [t; VInt 2; i] => match dec01 t, dec01 i with
+                        | Some (AB x), Some (AI y) => Some (ret01 "gather(2)" (option_map AB (gather_last3 false x y)) st)
+                        | _, _ => None
+                        end
+    | _ => None
+    end
+  else if is f "$getitem" then
+    match args with
+    | [t; VTuple [k1; k2]] =>
+        if (is_ellipsis k1 || is_full_slice k1)%bool then
+          Some match dec01 t, dec_slice k2 with
+               | Some x, Some (a, b) =>
+                   if (is_ellipsis k1 || Nat.eqb (List.length (shape01 x)) 2)%bool
+                   then ret01 "getitem last" (map01 (fun X d y => slice_last d y a b) x) st
+                   else Stuck "getitem: [:, a:b] on another rank"
+               | _, _ => Stuck "getitem: tuple key"
+               end
+        else None
+    | _ => None
+    end
+  else if is f "torch.cat" then
+    Some match args with
+         | [VList [a; b]; VInt 2] =>
+             match dec01 a, dec01 b with
+             | Some (AB x), Some (AB y) =>
+                 if (Nat.eqb (List.length (shp x)) 3 && Nat.eqb (List.length (shp y)) 3)%bool
+                 then ret01 "cat" (option_map AB (cat_last false x y)) st else oob "cat: rank"
+             | _, _ => Stuck "cat"
+             end
+         | _ => Stuck "cat"
+         end
+  else if is f "$method.masked_select" then
+    Some match args with
+         | [t; m] => match dec01 t, dec01 m with
+                     | Some (AI x), Some (AB mk) => ret01 "masked_select" (option_map AI (masked_select x mk)) st
+                     | _, _ => Stuck "masked_select"
+                     end
+         | _ => Stuck "masked_select"
+         end
+  else if is f "$method!.masked_scatter_" then
+    Some match args with
+         | [t; m; src] => match dec01 t, dec01 m, dec01 src with
+                          | Some (AI x), Some (AB mk), Some (AI y) =>
+                              match masked_scatter x mk y with
+                              | Some (Some r) => Ok (enc_i r) st
+                              | Some None => Exc rt_error st
+                              | None => oob "masked_scatter_"
+                              end
+                          | _, _, _ => Stuck "masked_scatter_"
+                          end
+         | _ => Stuck "masked_scatter_"
+         end
+  else if is f "$method.max" then
+    match args with
+    | [t] => Some match dec01 t with
+                  | Some (AI x) => match max_all x with
+                                   | Some m => Ok (enc_i (mkTn [] [m])) st
+                                   | None => Exc rt_error st
+                                   end
+                  | _ => Stuck "max()"
+                  end
+    | _ => None
+    end
+  else if is f "$method.item" then
+    Some match args with
+         | [t] => match dec01 t with
+                  | Some (AI x) => match dat x with [m] => Ok (VInt m) st | _ => oob "item" end
+                  | _ => Stuck "item"
+                  end
+         | _ => Stuck "item"
+         end
+  else if is f "compare" then
+    match args with
+    | [VStr o; a; b] =>
+        match dec01 a, dec01 b with
+        | Some (AI x), Some (AI y) =>
+            if is o "eq" then Some (ret01 "eq" (option_map AB (cmp_i Z.eqb x y)) st)
+            else if is o "gt" then Some (ret01 "gt" (option_map AB (cmp_i Z.gtb x y)) st)
+            else None
+        | _, _ => None
+        end
+    | _ => None
+    end
+  else None.
+
+(* the environment of `optimal_completion`'s body *)
+Definition ext03_oc (f : string) (args : list val) (kw : list (string * val)) (st : state) : outcome val :=
+  match ext03_oc_new f args kw st with
+  | Some o => o
+  | None => ext03_sm f args kw st
+  end.
+
+(* ---- the arguments ----------------------------------------------------------------------------------- *)
+(* _string_matching(ref, hyp, eos, include_eos, batch_first, ins_cost, del_cost, sub_cost, warn, return_mask=True,
+   exclude_last=excl): the call made by optimal_completion; norm / return_prf_dsts / return_mistakes have their default
+   False, padding its default config.INDEX_PAD_VALUE = -100 (not read on this path) *)
 (* the blocks in sequence *)
 Definition sm3_blocks : stmt := SSeq sm3_pre (SSeq sm3_row0 sm3_main).
 
@@ -217,3 +410,37 @@ Definition src_mask_check1 (body : stmt) (c : C01.Model.cfg) (scale : Z) (N R : 
 Definition src_mask_check (c : C01.Model.cfg) (scale : Z) (N R : nat) (ref hyp : list (list Z))
   (obs : list (list (list bool))) : bool :=
   (src_mask_check1 sm3_blocks c scale N R ref hyp obs && src_mask_check1 sm3_body c scale N R ref hyp obs)%bool.
+
+(* ---- optimal_completion(ref, hyp, eos, include_eos, batch_first, ins_cost, del_cost, sub_cost, padding, exclude_last, warn) -- *)
+Definition oc_vars (c : C01.Model.cfg) (scale : Z) (N : nat) (ref hyp : list (list Z)) : list (string * val) :=
+  [("ref", enc_i (mat_tensor (C01.Model.c_bf c) N ref)); ("hyp", enc_i (mat_tensor (C01.Model.c_bf c) N hyp));
+   ("eos", opt_int (C01.Model.c_eos c)); ("include_eos", VBool (C01.Model.c_incl c)); ("batch_first", VBool (C01.Model.c_bf c));
+   ("ins_cost", VQ (cost_q scale (C01.Model.c_ins c))); ("del_cost", VQ (cost_q scale (C01.Model.c_del c)));
+   ("sub_cost", VQ (cost_q scale (C01.Model.c_sub c))); ("padding", VInt (C01.Model.c_pad c));
+   ("exclude_last", VBool (C01.Model.c_excl c)); ("warn", VBool false)] ++ globals01.
+
+Definition src_oc (body : stmt) (c : C01.Model.cfg) (scale : Z) (N : nat) (ref hyp : list (list Z))
+  : option (option (tn Z)) :=
+  match Interp.run ext03_oc body (oc_vars c scale N ref hyp) with
+  | Ok v _ => match dec01 v with
+              | Some (AI t) => Some (Some t)
+              | _ => None
+              end
+  | Exc _ _ => Some None
+  | Stuck _ => None
+  end.
+
+Fixpoint zs_eqb (a b : list Z) : bool :=
+  match a, b with
+  | [], [] => true
+  | x :: a', y :: b' => (Z.eqb x y && zs_eqb a' b')%bool
+  | _, _ => false
+  end.
+
+(* [sh]: the shape of the tensor the implementation returned, [obs]: its content as nested lists *)
+Definition src_oc_check (c : C01.Model.cfg) (scale : Z) (N : nat) (ref hyp : list (list Z)) (sh : list nat)
+  (obs : list (list (list Z))) : bool :=
+  match src_oc oc_body c scale N ref hyp with
+  | Some (Some t) => (nats_eqb (shp t) sh && zs_eqb (dat t) (List.concat (List.concat obs)))%bool
+  | _ => false
+  end.
